@@ -722,7 +722,8 @@ where
             Expr::MacroExpansion {
                 ref replacement, ..
             } => self.visit_expr(replacement),
-            Expr::Annotated(..) => unimplemented!(), // FIXME
+            // Inserted by the typechecker around an expression (with the same span)
+            Expr::Annotated(ref expr, _) => self.visit_expr(expr),
             Expr::Error(..) => (),
         }
     }
